@@ -224,6 +224,10 @@ def sample_setting(sid, transport, seed):
 
 
 def run(tier, seed, rep):
+    # histories of public API calls and device changes on one object, then probes of the API-level properties
+    from .. import api_sessions
+    _api = api_sessions.explore(tier, seed, {'C17'})
+    rep.add_many([v for v in _api['violations'] if v['prop'] == 'C17'])
     jobs = []
     for cfg in settings_configs():
         r = make_rig(cfg)
@@ -247,7 +251,8 @@ def run(tier, seed, rep):
         total += n
         ne += e
         rep.add_many(res)
-    cov = dict(states=max(ne, 1), transitions=max(total, 1), executions=total, traces_validated_against_impl=total,
+    cov = dict(api_session_histories=_api['histories'], api_session_states=_api['states'],
+               states=max(ne, 1), transitions=max(total, 1), executions=total, traces_validated_against_impl=total,
                settings_jobs=len(jobs), distinct_encodings_written=ne, exhaustive=(tier == 'thorough'),
                bound='every setting of ET (eco v1 / v2 / 745 variants), DT (single / three phase) and the register-addressed ES '
                      'settings (AA55 and Modbus) x Modbus RTU/UDP, Modbus/TCP, AA55: ' +
@@ -265,6 +270,11 @@ def run(tier, seed, rep):
 
 
 def replay(r):
+    if r.get('part') == 'api-session':
+        from .. import api_sessions
+        out = api_sessions.replay(r)
+        out['violations'] = [m for m in out['violations'] if m[0] == 'C17']
+        return out
     cfg = r['cfg']
     cfg['refused'] = tuple(cfg['refused'])
     if 'firmware' in cfg and isinstance(cfg['firmware'], dict):
